@@ -285,16 +285,16 @@ type vfFragRef struct{ id, idx int }
 // ---------------------------------------------------------------- endpoint + world
 
 type vfEndpoint struct {
-	idx     int
-	cfg     vfEpCfg
-	conn    *vfConn
-	a       *Association
-	connErr error
-	connRet bool
-	created func(*Association) // set by start(): receives the association from the creation hook
-	streams map[int]*Stream
-	inc     map[int]int // incarnation counter per sid (accept/open events)
-	lastSnap string
+	idx          int
+	cfg          vfEpCfg
+	conn         *vfConn
+	a            *Association
+	connErr      error
+	connRet      bool
+	created      func(*Association) // set by start(): receives the association from the creation hook
+	streams      map[int]*Stream
+	inc          map[int]int // incarnation counter per sid (accept/open events)
+	lastSnap     string
 	acceptPaused bool
 }
 
@@ -307,8 +307,8 @@ type vfWorld struct {
 	nextPid  int
 	activity chan struct{}
 	msgs     map[int]*vfMsg
-	byHash   map[[32]byte]int            // full message content (+ppi-less) -> id
-	frags    map[[32]byte][]vfFragRef    // fragment content -> candidates
+	byHash   map[[32]byte]int         // full message content (+ppi-less) -> id
+	frags    map[[32]byte][]vfFragRef // fragment content -> candidates
 	nextMsg  int
 	rng      *rand.Rand
 	snapAll  bool
@@ -448,8 +448,8 @@ func (w *vfWorld) cfgEvent() {
 	for i, n := range []string{"A", "B"} {
 		c := w.ep[i].cfg
 		m[n] = map[string]any{"il": c.IL, "zc": c.ZC, "mtu": int(c.MTU), "buf": int(c.Buf), "maxmsg": int(c.MaxMsg),
-			"W":       int((getMaxTSNOffset(c.Buf) + 63) / 64 * 64),
-			"rtomax":  int(c.RTOMax), "bw": c.BlockWrite, "mincwnd": int(c.MinCwnd), "sched": c.Sched,
+			"W":      int((getMaxTSNOffset(c.Buf) + 63) / 64 * 64),
+			"rtomax": int(c.RTOMax), "bw": c.BlockWrite, "mincwnd": int(c.MinCwnd), "sched": c.Sched,
 			"server": c.Server, "wrapdist": vfWrapDist(c.InitTSN)}
 	}
 	w.tr.emit(m)
@@ -1099,6 +1099,26 @@ func (w *vfWorld) finish(closeAll bool) {
 	synctest.Wait()
 	leaks := vfLeaked()
 	ev := map[string]any{"ev": "end", "t": w.now(), "leaks": len(leaks), "clean": len(leaks) == 0}
+	// timers still armed after teardown ("ep:name"); only for associations whose transport is closed
+	armed := []any{}
+	for i := 0; i < 2; i++ {
+		e := w.ep[i]
+		if e.a == nil || !e.conn.isClosed() {
+			continue
+		}
+		for _, tm := range []struct {
+			n string
+			t *rtxTimer
+		}{{"t1init", e.a.t1Init}, {"t1cookie", e.a.t1Cookie}, {"t2shutdown", e.a.t2Shutdown}, {"t3rtx", e.a.t3RTX}, {"treconfig", e.a.tReconfig}} {
+			if tm.t != nil && tm.t.isRunning() {
+				armed = append(armed, fmt.Sprintf("%d:%s", i, tm.n))
+			}
+		}
+		if e.a.ackTimer != nil && e.a.ackTimer.isRunning() {
+			armed = append(armed, fmt.Sprintf("%d:ack", i))
+		}
+	}
+	ev["timers"] = armed
 	if len(leaks) > 0 {
 		ls := []any{}
 		for _, l := range leaks {
